@@ -322,7 +322,7 @@ impl<'a> FileBuilder<'a> {
         }
         let enc = if opts.flate {
             d.push((b"Filter".to_vec(), Val::name("FlateDecode")));
-            pf::flate_encode(&data, pf::FlateStyle::ZlibDefault)
+            pf::flate_encode(&data, pf::FlateStyle::ZlibFast)
         } else {
             data
         };
